@@ -63,6 +63,13 @@ def seekAscending : Option Nat → List SeekPt → Bool
   | none, .defined s _ _ :: ps => seekAscending (some s) ps
   | some l, .defined s _ _ :: ps => decide (s > l) && seekAscending (some s) ps
 
+/-- a defined point at offset u64::MAX (the placeholder's encoding) -/
+def seekIsMax : SeekPt → Bool
+  | .defined s _ _ => s == 2 ^ 64 - 1
+  | .placeholder => false
+
+def seekHasMax (pts : List SeekPt) : Bool := pts.any seekIsMax
+
 /-- the first point is written unconditionally; later defined points must ascend -/
 def seekWritable (pts : List SeekPt) : Bool :=
   match pts with
@@ -81,7 +88,7 @@ def Block.body : Block → Res (List Nat)
   | .application id d => .ok (beBytes 4 id ++ d)
   | .seektable pts =>
       -- the first point is written unconditionally; later defined points must ascend
-      if seekMaxOffsetRefused && pts.any (fun p => match p with | .defined s _ _ => s == 2 ^ 64 - 1 | .placeholder => false) then .error (.err "InvalidSeekTablePoint")
+      if seekMaxOffsetRefused && seekHasMax pts then .error (.err "InvalidSeekTablePoint")
       else if seekWritable pts
       then .ok (pts.flatMap seekPtBytes) else .error (.err "InvalidSeekTablePoint")
   | .vorbis v fs =>
